@@ -17,7 +17,7 @@ import (
 // C03 — inbound streams decode exactly, violations are rejected, no panic.
 
 func init() {
-	register(&Prop{ID: "C03", Run: runC03, Quick: 20000, Thorough: 300000, Level: "exploration"})
+	register(&Prop{ID: "C03", Run: runC03, Quick: 20000, Thorough: 1000000, Level: "exploration"})
 }
 
 var extChoices = []string{
